@@ -1,7 +1,65 @@
-import ScVerif.Base.Line
-/-! Driver handler for C09 (stub: replaced by the property's owner). -/
-namespace ScVerif.C09
+import ScVerif.C09.Codec
+/-! Driver handler for C09.
 
-def handle (_toks : List String) : String := "!bad-op"
+* `merge <a> <b>`                 → `mergeChanges a b` (`drop` when `send == false`)
+* `mrun <move>*`                  moves `r:<change>` (offer one input) / `e` (take one output) on the
+                                  `mergeCollectionExcess` machine from its initial state →
+                                  `<out>;…|<pending>` with one `<out>` per `e` move (`none` = not enabled)
+* `drun <move>*`                  the same for `DropExcess` over opaque tokens: `r:<tok>` / `e`
+-/
+namespace ScVerif.C09
+open ScVerif.Line
+
+def parseMove? (s : String) : Option (Move SChange) :=
+  if s = "e" then some .emit
+  else match s.splitOn ":" with
+    | ["r", c] => (parseChange? c).map .recv
+    | _ => none
+
+/-- Run the merge machine, collecting the answer of every `emit` move (`none` when not enabled). -/
+def mrunOut (st : MState String String) : List (Move SChange) → List String × MState String String
+  | [] => ([], st)
+  | .recv e :: ms => mrunOut (recv st e) ms
+  | .emit :: ms =>
+    match emit st with
+    | some (o, st') => let r := mrunOut st' ms; (showChange o :: r.1, r.2)
+    | none => let r := mrunOut st ms; ("none" :: r.1, r.2)
+
+def parseDMove? (s : String) : Option (Move String) :=
+  if s = "e" then some .emit
+  else match s.splitOn ":" with
+    | ["r", c] => if c = "" then none else some (.recv c)
+    | _ => none
+
+def drunOut (st : DState String) : List (Move String) → List String × DState String
+  | [] => ([], st)
+  | .recv e :: ms => drunOut (drecv st e) ms
+  | .emit :: ms =>
+    match demit st with
+    | some (o, st') => let r := drunOut st' ms; (o :: r.1, r.2)
+    | none => let r := drunOut st ms; ("none" :: r.1, r.2)
+
+def showOuts (xs : List String) : String := if xs.isEmpty then "-" else ";".intercalate xs
+
+def handle? (toks : List String) : Option String :=
+  match toks with
+  | ["merge", a, b] => do
+    let a ← parseChange? a
+    let b ← parseChange? b
+    pure (showOptChange (mergeChanges a b))
+  | "mrun" :: ms => do
+    let ms ← ms.mapM parseMove?
+    let r := mrunOut MState.init ms
+    pure (showOuts r.1 ++ "|" ++ showChanges r.2.pending)
+  | "drun" :: ms => do
+    let ms ← ms.mapM parseDMove?
+    let r := drunOut none ms
+    pure (showOuts r.1 ++ "|" ++ (match r.2 with | none => "-" | some m => m))
+  | _ => none
+
+def handle (toks : List String) : String :=
+  match handle? toks with
+  | some r => r
+  | none => "!bad-op"
 
 end ScVerif.C09
